@@ -1097,7 +1097,7 @@ def stream_lib(ctx):
                            'after every call: result, complete state with aliasing, frame, freshness against reference and model; '
                            'non-trivial = at least 3 calls of which one mutates a container that has an alias')
     rng = ctx.rng('lib')
-    specs = load_corpus() + [gen_history(rng) for _ in range(ctx.scale(2500, 30000))]
+    specs = load_corpus() + [gen_history(rng) for _ in range(ctx.scale(2500, 24000))]
 
     def tags_of(spec, info):
         tags = [f'len{min(len(spec["calls"]) // 5 * 5, 30)}']
@@ -1137,7 +1137,7 @@ def text_oracles(ctx):
                             'non-trivial = the string contains a character that has to be escaped')
     rng = ctx.rng('text')
     strings = ['', '.', 'a.c', '\\', '\\d', '[a]', 'a|b', '(', '^$', '\n', ' ', '#', 'é', 'a b&c=d/e?f', '%41', '100%', "it's", '\U0001f600']
-    strings += [rand_string(rng, WIDE, 10) for _ in range(ctx.scale(3000, 60000))]
+    strings += [rand_string(rng, WIDE, 10) for _ in range(ctx.scale(3000, 40000))]
     script = impl['parser'].parse_script('e = regexEscape(s)\nu = urlEncode(s)\nc = urlEncodeComponent(s)')
     reqs = []
     for s in strings:
